@@ -53,3 +53,18 @@ check("C06", "exploration",
       "Allocation measured with runtime/metrics; by-design allocations within the library's own caps are not judged (they are avoided in the flood regime by proto.VerifSetCaps, which only adds earlier checks).",
       "runtime monitoring: mutation-based hostile inputs under crash/allocation/consistency monitors in isolated workers",
       "DESIGN.md 3/C06")
+check("C02", "exploration",
+      "Runs Client.Do of generated queries (settings, parameters, secret, quota keys, span contexts, external data, input columns from the whole catalogue, follow-up inserts on the same connection) against a synchronous scripted server over revision pairs and all compression modes; the recorded client byte stream is parsed by the independent reference codec at the negotiated revision (one checksummed frame per block iff compression) and compared field by field with the caller's inputs; nothing may be left over; parameters on old revisions must be refused before anything is written. Held = every generated execution produced exactly the expected packet sequence.",
+      "Trusted: the reference stream parser (simnet + ref). Settings need revision >= 54429 (library limitation, see C17 findings).",
+      "runtime monitoring: client byte stream recorded at the connection boundary and checked by a reference parser",
+      "DESIGN.md 3/C02")
+check("C03", "exploration",
+      "Plays seeded reference-encoded server scripts (all handled packet kinds, exception chains, compression, revision pairs, typed/single/auto/no result targets, every subset of callbacks, an optional failing callback) to the real client and compares the recorded callback trace (order, arguments, snapshots of the bound columns taken inside OnResult) and the returned error (errors.As/Is recoverability of the whole exception chain) with an executable model of the receive loop. Held = trace and outcome equal the model on every script.",
+      "Trusted: the executable receive-loop model and the reference encoder of the server side.",
+      "runtime monitoring: callback/return trace of real executions compared with an executable trace model",
+      "DESIGN.md 3/C03")
+check("C08", "exploration",
+      "Replays the C03 scripts under many segmentations of the server byte stream (one byte per read, two pieces at every offset, random split vectors, all 2^(n-1) splits of short responses, virtual read-deadline expiries between packets), each compared with the model and with whole delivery, followed by a Ping that must find the connection at a packet boundary; plus library encodings (plain / each compressed frame kind) decoded through one-byte, half, data-with-EOF and random-chunk readers with a sentinel byte to check exact consumption. Held = identical outcomes on all segmentations tried.",
+      "Only read patterns a conforming io.Reader/net.Conn may produce are used.",
+      "runtime monitoring: same executions under perturbed transport segmentation, trace equality oracle",
+      "DESIGN.md 3/C08")
